@@ -4,10 +4,10 @@ package main
 import (
 	"crypto/sha1"
 	"fmt"
-	"math"
-	"runtime/debug"
 	"go/types"
+	"math"
 	"os"
+	"runtime/debug"
 	"sort"
 	"strings"
 	"sync"
@@ -61,34 +61,34 @@ type Engine struct {
 	staticInited  map[*ssa.Package]bool
 
 	// per path
-	pc         []*Term
-	byVar      map[int32][]int
-	defs       map[int32]*Term
-	defCache   map[*Term]Sc
-	atomLen    map[*Term]Sc
-	dec        []uint64
-	prefix     []uint64
-	alts       [][]uint64
-	freshN     int
-	fuel       int
-	depth      int
-	maxDepth   int
-	globals    map[*ssa.Global]*Val
-	inited     map[*ssa.Package]bool
-	nondet     []nondetRec
-	notes      []noteRec
-	pathCovers []string
-	out        []outEvent
-	lastModel  Model
-	unknownBr  int
-	inTry      int
-	overrides  map[string]*Fn
-	stdin      *stdinModel
-	lastPanicMsg string
-	dbgStack  []string
-	qcache    map[string]cacheEnt
-	cacheHits int
-	noteModel Model
+	pc            []*Term
+	byVar         map[int32][]int
+	defs          map[int32]*Term
+	defCache      map[*Term]Sc
+	atomLen       map[*Term]Sc
+	dec           []uint64
+	prefix        []uint64
+	alts          [][]uint64
+	freshN        int
+	fuel          int
+	depth         int
+	maxDepth      int
+	globals       map[*ssa.Global]*Val
+	inited        map[*ssa.Package]bool
+	nondet        []nondetRec
+	notes         []noteRec
+	pathCovers    []string
+	out           []outEvent
+	lastModel     Model
+	unknownBr     int
+	inTry         int
+	overrides     map[string]*Fn
+	stdin         *stdinModel
+	lastPanicMsg  string
+	dbgStack      []string
+	qcache        map[string]cacheEnt
+	cacheHits     int
+	noteModel     Model
 	reportedPanic bool
 
 	maxConcretize int
@@ -761,7 +761,7 @@ func (e *Engine) renderWithModel(v Val, m Model) string {
 				}
 			}
 		}
-		return fmt.Sprintf("%q", string(b))[1:len(fmt.Sprintf("%q", string(b)))-1]
+		return fmt.Sprintf("%q", string(b))[1 : len(fmt.Sprintf("%q", string(b)))-1]
 	case SAtom:
 		val, ok := num(x.arg)
 		if !ok {
